@@ -14,9 +14,9 @@ fn c01_k3_end_read_retires_only_own_entries() {
 	let log = Log {
 		// same shape as LogOverlays::with_columns(1) but only as many overlays as the table ids used below need
 		overlays: RwLock::new(LogOverlays {
-			index: (0..17).map(|_| IndexLogOverlay::default()).collect(),
-			value: (0..4).map(|_| ValueLogOverlay::default()).collect(),
-			ref_count: (0..17).map(|_| RefCountLogOverlay::default()).collect(),
+			index: (0..1).map(|_| IndexLogOverlay::default()).collect(),
+			value: (0..2).map(|_| ValueLogOverlay::default()).collect(),
+			ref_count: (0..1).map(|_| RefCountLogOverlay::default()).collect(),
 			last_record_ids: vec![0],
 		}),
 		appending: RwLock::new(None),
@@ -33,9 +33,11 @@ fn c01_k3_end_read_retires_only_own_entries() {
 	};
 	let next0 = log.next_record_id.load(Ordering::Relaxed);
 	kani::assume(next0 < u64::MAX - 2);
-	let vt = ValueTableId::new(0, 3);
-	let it = IndexTableId::new(0, 16);
-	let rt = RefCountTableId::new(0, 16);
+	// table ids whose overlay slots are 1, 0, 0 (the overlay vectors are indexed by TableId::log_index; index sizes
+	// below 16 do not exist but only the slot number matters here, and 38 page-bearing maps needed 40 GB)
+	let vt = ValueTableId::new(0, 1);
+	let it = IndexTableId::new(0, 0);
+	let rt = RefCountTableId::new(0, 0);
 	let (ra, rb, rc, rd): (u64, u64, u64, u64) = (kani::any(), kani::any(), kani::any(), kani::any());
 	let (a, b): (u8, u8) = (kani::any(), kani::any());
 	{
